@@ -234,6 +234,14 @@ Print Assumptions C04_delete_source_by_name_refuted.
     obligation) while isValidEntity() is still the link count; the coordinator switches [b_valid_reachable] of
     [current_behaviour] (DbOps.v) on when notes/proposed-fixes/C04-1-isValidEntity-root-reachable.patch has landed. *)
 Definition c04_switches (b : behaviour) : bool * bool * bool := (b_delsource_by_id b, b_feature_null_guard b, b_valid_reachable b).
+
+(** the hand copy of [util::looksLikeUUID] in the model is the definition the translator regenerates from
+    src/util/util.cpp on every run *)
+Require NixV.Store.GenBridge NixV.Gen.GenUtil.
+Theorem C04_looksLikeUUID_is_generated : forall s, NixV.Store.Db.looksLikeUUID s = NixV.Gen.GenUtil.looksLikeUUID s.
+Proof. exact NixV.Store.GenBridge.db_looksLikeUUID_is_generated. Qed.
+Print Assumptions C04_looksLikeUUID_is_generated.
+
 Theorem C04_current_is_repaired : c04_switches current_behaviour = c04_switches repaired.
 Proof. reflexivity. Qed.
 Print Assumptions C04_current_is_repaired.
